@@ -25,7 +25,7 @@ import (
 	"verif/harness/internal/replay"
 )
 
-const wait = 3 * time.Second
+const wait = 10 * time.Second
 
 type hookEv struct {
 	point   string
